@@ -1,3 +1,94 @@
-(* placeholder: theorems follow *)
-From CC Require Import Model.Circuit.
-Example C11_model_runs : True. Proof. exact I. Qed.
+(* Properties/C11.v — passivity of the state matrix.  Model: Model/StateSpace.v; proofs: Theory/StateSpaceThm.v
+   (Lyapunov identity through Tellegen's theorem, generic field) and Theory/StateSpaceLyap.v (ordered field).
+   Hypotheses as in Properties/C10.v, plus: [le] an order making R an ordered field (Theory/Ordered.v: ofield_ok);
+   "positive resistances": every branch that is neither capacitor, inductor nor source ([resb]) has admittance >= 0;
+   "positive capacitances and inductances": W_k >= 0 together with lam_k <> 0. *)
+From Coq Require Import List Bool ZArith NArith QArith Qcanon.
+From CC Require Import Theory.Field Theory.Complex Model.Network Model.StateSpace Model.Circuit Theory.Spec Theory.Api
+  Theory.Matrix Theory.Ordered Theory.StateSpaceThm Theory.StateSpaceLyap.
+Import ListNotations.
+Local Open Scope nat_scope.
+
+(* energy balance of the autonomous circuit, any field:  x^T W (A x) = - (power dissipated in the resistive branches),
+   W = diag(C..., L...), the branch voltages being those the model reports for the state x and zero input *)
+Theorem C11_lyapunov_identity : forall (K : fops) (KOK : fops_ok K) (n : network K) (cvals lvals : list (label * K)),
+  (forall k, k < ss_nst K cvals lvals -> nth k (lam K cvals lvals) (f0 K) <> f0 K) ->
+  rlc_dc K n cvals lvals ->
+  forall m : ssm K, state_space_matrices K n cvals lvals = Ok m ->
+  forall x : list K, length x = ss_nst K cvals lvals ->
+  sumF (fun k => fmul K (fmul K (nth k (Wd K cvals lvals) (f0 K)) (nth k x (f0 K))) (nth k (mat_vec (ss_A m) x) (f0 K)))
+       (seq 0 (ss_nst K cvals lvals))
+  = fopp K (sumF (eR K n cvals lvals m x) (branches n)).
+Proof. exact lyapunov_identity. Qed.
+Print Assumptions C11_lyapunov_identity.
+
+(* C11 "W A + A^T W is negative semidefinite" *)
+Theorem C11_lyapunov : forall (R : fops) (ROK : fops_ok R) (le : R -> R -> Prop), ofield_ok R le ->
+  forall (n : network R) (cvals lvals : list (label * R)),
+  (forall k, k < ss_nst R cvals lvals -> nth k (lam R cvals lvals) (f0 R) <> f0 R) ->
+  rlc_dc R n cvals lvals ->
+  forall m : ssm R, state_space_matrices R n cvals lvals = Ok m ->
+  (forall b, In b (branches n) -> resb R cvals b = true -> le (f0 R) (finY b)) ->
+  forall x : list R, length x = ss_nst R cvals lvals ->
+  le (dot x (mat_vec (mat_add (mat_mul (ss_nst R cvals lvals) (diag R (Wd R cvals lvals)) (ss_A m))
+                              (mat_mul (ss_nst R cvals lvals) (transpose (ss_nst R cvals lvals) (ss_A m)) (diag R (Wd R cvals lvals))))
+                     x))
+     (f0 R).
+Proof. exact lyapunov. Qed.
+Print Assumptions C11_lyapunov.
+
+(* C11 "hence every natural frequency has a non-positive real part": an eigenvalue alpha + j beta of A with
+   eigenvector a + j b, written over the reals *)
+Theorem C11_natural_frequencies : forall (R : fops) (ROK : fops_ok R) (le : R -> R -> Prop), ofield_ok R le ->
+  forall (n : network R) (cvals lvals : list (label * R)),
+  (forall k, k < ss_nst R cvals lvals -> nth k (lam R cvals lvals) (f0 R) <> f0 R) ->
+  rlc_dc R n cvals lvals ->
+  forall m : ssm R, state_space_matrices R n cvals lvals = Ok m ->
+  (forall b, In b (branches n) -> resb R cvals b = true -> le (f0 R) (finY b)) ->
+  (forall k, k < ss_nst R cvals lvals -> le (f0 R) (nth k (Wd R cvals lvals) (f0 R))) ->
+  forall (a b : list R) (alpha beta : R), length a = ss_nst R cvals lvals -> length b = ss_nst R cvals lvals ->
+  (forall k, k < ss_nst R cvals lvals ->
+     nth k (mat_vec (ss_A m) a) (f0 R) = fsub R (fmul R alpha (nth k a (f0 R))) (fmul R beta (nth k b (f0 R)))) ->
+  (forall k, k < ss_nst R cvals lvals ->
+     nth k (mat_vec (ss_A m) b) (f0 R) = fadd R (fmul R beta (nth k a (f0 R))) (fmul R alpha (nth k b (f0 R)))) ->
+  (exists k, k < ss_nst R cvals lvals /\ (nth k a (f0 R) <> f0 R \/ nth k b (f0 R) <> f0 R)) ->
+  le alpha (f0 R).
+Proof. exact natural_frequency_nonpos. Qed.
+Print Assumptions C11_natural_frequencies.
+
+(* ---- non-vacuity over the ordered field Qc: the circuit of Properties/C10.v ---- *)
+From Coq Require Import String.
+Local Open Scope string_scope.
+Definition q (a : Z) (b : positive) : Qcops := qc a b.
+Definition ex_net : network Qcops :=
+  {| zero := lbl "0";
+     branches := [ Build_branch (lbl "2") (lbl "3") (impedance (lbl "Lb") (q 0 1));
+                   Build_branch (lbl "1") (lbl "2") (resistor (lbl "R1") (q 2 1));
+                   Build_branch (lbl "0") (lbl "3") (current_source (lbl "M1") (q 1 1) (q 0 1));
+                   Build_branch (lbl "2") (lbl "0") (impedance (lbl "La") (q 0 1));
+                   Build_branch (lbl "3") (lbl "0") (admittance (lbl "C1") (q 0 1));
+                   Build_branch (lbl "3") (lbl "0") (resistor (lbl "R2") (q 5 1));
+                   Build_branch (lbl "1") (lbl "0") (voltage_source (lbl "Vs") (q 1 1) (q 0 1)) ] |}.
+Definition ex_c : list (label * Qcops) := [(lbl "C1", q 1 2)].
+Definition ex_l : list (label * Qcops) := [(lbl "Lb", q 2 1); (lbl "La", q 3 1)].
+
+Example C11_example_order : ofield_ok Qcops Qcle.
+Proof. exact Qc_ofield_ok. Qed.
+Example C11_example_hyp : rlc_dcb ex_net ex_c ex_l = true /\ lam_nzb ex_c ex_l = true.
+Proof. vm_compute. split; reflexivity. Qed.
+Example C11_example_resistances : forall b, In b (branches ex_net) -> resb Qcops ex_c b = true -> Qcle (f0 Qcops) (finY b).
+Proof. intros b Hb _. simpl in Hb.
+  repeat (destruct Hb as [<-|Hb]; [vm_compute; intro H; discriminate H|]). destruct Hb. Qed.
+Example C11_example_values : forall k, k < ss_nst Qcops ex_c ex_l -> Qcle (f0 Qcops) (nth k (Wd Qcops ex_c ex_l) (f0 Qcops)).
+Proof. intros k Hk. change (ss_nst Qcops ex_c ex_l) with 3 in Hk.
+  destruct k as [|[|[|k]]]; [vm_compute; intro H; discriminate H ..|]. exfalso. apply (Nat.lt_irrefl 3).
+  apply (Nat.le_lt_trans _ (S (S (S k)))); [repeat apply le_n_S; apply Nat.le_0_l|exact Hk]. Qed.
+(* observer: at x = (1, 2, 3) the quadratic form x^T (W A + A^T W) x is strictly negative *)
+Example C11_example_form :
+  match state_space_matrices Qcops ex_net ex_c ex_l with
+  | Ok m => let x := [q 1 1; q 2 1; q 3 1] in
+            let f := dot x (mat_vec (LyapM Qcops ex_c ex_l m) x) in
+            Qle_bool (this f) 0 && negb (Qc_eq_bool f (q 0 1))
+  | Err _ => false
+  end = true.
+Proof. vm_compute. reflexivity. Qed.
